@@ -69,7 +69,7 @@ def check(case, ctx):
     spec = specgen.normalise(case["spec"], ctx.flags, ctx)
     ref = Ref(spec)
     if "no-coalesce-value-failure" in ctx.flags:
-        if any("coalesce-absorbed-value-failure" in ref.run(o).labels for o in case["history"]):
+        if any("absorbed-under-cache" in ref.run(o).labels for o in case["history"]):
             ctx.exclude("no-coalesce-value-failure")
             ctx.done(case, False, ["excluded-K6"])
             return
